@@ -16,8 +16,13 @@ RULE = (
     "post-processing in {none, slicing_opts, reconf_opts plain/forested, "
     "slicing_reconf_opts, simulated_annealing_opts}, max_repeats 1..8, "
     "executor in {serial, harness-owned pool whose completion order is a "
-    "drawn schedule, real ThreadPoolExecutor}). Oracle: returned tree is a "
-    "complete tree of the query; exactly max_repeats trials are recorded; "
+    "drawn schedule - optionally with a pickle boundary around every task and "
+    "result (process-pool protocol) -, real ThreadPoolExecutor}, deterministic "
+    "early stopping max_time='equil:K', optionally a second search through the "
+    "same optimizer object). Oracle: returned tree is a "
+    "complete tree of the query; exactly the requested number of trials is "
+    "recorded (at most that many under early stopping; with only the harness "
+    "method also: no more invocations than requested); "
     "best score == min(scores); the (flops, write, size) recorded at the "
     "arg-min trial == contract_stats() of the RETURNED tree == independent "
     "CostRef of its path + sliced labels; score recomputed from the returned "
@@ -29,7 +34,7 @@ RULE = (
 )
 ASSUMPTIONS = [
     "the harness-owned pool runs each trial synchronously when its turn in the drawn schedule comes; the real thread pool samples orders",
-    "process pools are exercised only by C17's subprocess batches, not here",
+    "no real process pool: its protocol (pickled task and result, no shared memory) is emulated in-process by the scheduled pool's pickle mode",
 ]
 
 OBJECTIVES = ["flops", "size", "write", "combo", "limit"]
@@ -67,7 +72,14 @@ class _Future:
 
     def _run(self):
         try:
-            self._res = self.fn(*self.args, **self.kwargs)
+            if self.pool.pickle:
+                # process-pool protocol: task and result cross a pickle boundary
+                import pickle
+
+                fn, args, kwargs = pickle.loads(pickle.dumps((self.fn, self.args, self.kwargs)))
+                self._res = pickle.loads(pickle.dumps(fn(*args, **kwargs)))
+            else:
+                self._res = self.fn(*self.args, **self.kwargs)
         except BaseException as e:  # noqa
             self._exc = e
         self._done = True
@@ -94,7 +106,8 @@ class ScheduledPool:
     """A pool whose completion order is the drawn ``schedule``: whenever the
     optimizer polls, the next scheduled pending future is run to completion."""
 
-    def __init__(self, schedule, workers):
+    def __init__(self, schedule, workers, pickle=False):
+        self.pickle = pickle
         self.schedule = list(schedule)
         self.k = 0
         self.pending = []
@@ -167,6 +180,12 @@ def cases(draw):
         "executor": executor,
         "schedule": draw(st.lists(st.integers(0, 7), min_size=1, max_size=8)),
         "workers": draw(st.integers(1, 3)),
+        # the scheduled pool may put a pickle boundary around every task
+        "pickle": draw(st.booleans()),
+        # deterministic early stopping: stop after K trials without improvement
+        "equil": draw(st.sampled_from([None, None, None, 0, 1, 2])),
+        # search a second time through the same optimizer object (it carries on)
+        "again": draw(st.sampled_from([False, False, True])),
         "seed": draw(st.integers(0, 999)),
         # (cmaes needs every method to have at least one hyper-parameter, which
         # the parameter-free 'random' method has not)
@@ -231,7 +250,7 @@ def run_case(spec, sub=None):
     pool = None
     tp = None
     if spec["executor"] == "scheduled":
-        pool = ScheduledPool(spec["schedule"], spec["workers"])
+        pool = ScheduledPool(spec["schedule"], spec["workers"], pickle=bool(spec.get("pickle")))
         parallel = pool
     elif spec["executor"] == "threads":
         from concurrent.futures import ThreadPoolExecutor
@@ -241,6 +260,8 @@ def run_case(spec, sub=None):
     else:
         parallel = False
 
+    holder = {}
+
     def go():
         with warnings.catch_warnings():
             warnings.simplefilter("ignore")
@@ -248,11 +269,15 @@ def run_case(spec, sub=None):
                 methods=list(spec["methods"]), minimize=spec["minimize"],
                 max_repeats=spec["max_repeats"], parallel=parallel,
                 optlib=spec.get("optlib", "random"), on_trial_error="ignore",
+                max_time=None if spec.get("equil") is None else f"equil:{spec['equil']}",
                 **({"seed": spec["seed"]} if spec.get("optlib", "random") == "random" else {}),
                 **kw,
             )
+            holder["opt"] = opt
             try:
                 tree = opt.search(inputs, output, sizes)
+                if spec.get("again"):
+                    tree = opt.search(inputs, output, sizes)
             except Exception as e:
                 e._opt = opt
                 raise
@@ -263,7 +288,7 @@ def run_case(spec, sub=None):
     finally:
         if tp is not None:
             tp.shutdown(wait=True)
-    cls = [f"exec={spec['executor']}", f"post={post}", f"minimize={spec['minimize']}", f"optlib={spec.get('optlib', 'random')}", f"stages={len(kw)}"]
+    cls = [f"exec={spec['executor']}" + ("+pickle" if spec.get("pickle") and spec["executor"] == "scheduled" else ""), f"post={post}", f"minimize={spec['minimize']}", f"optlib={spec.get('optlib', 'random')}", f"stages={len(kw)}"]
     nfinite = 0
     if not ok:
         # accepted only if every trial failed
@@ -272,6 +297,15 @@ def run_case(spec, sub=None):
             len(calls) == spec["max_repeats"]
             and all(x in _state["fail"] for x in calls)
         )
+        if spec.get("equil") is not None and "opt" in holder:
+            # early stopping: the search may end before all requested trials
+            # ran; what counts is that every trial it ASSESSED had failed
+            rec = list(holder["opt"].scores)
+            all_flaky_failed = (
+                1 <= len(rec) <= spec["max_repeats"]
+                and all(s_ == float("inf") for s_ in rec)
+                and all(m_ == FLAKY and p_.get("x") in _state["fail"] for m_, p_ in zip(holder["opt"].method_choices, holder["opt"].param_choices))
+            )
         if all_flaky_failed and "KeyError" in res:
             cls.append("all_trials_failed")
         else:
@@ -280,9 +314,14 @@ def run_case(spec, sub=None):
         opt, tree = res
         check_tree(tree, inputs, output, sizes, viol, "returned tree")
         scores = list(opt.scores)
-        R = spec["max_repeats"]
-        if len(scores) != R:
-            viol.append(f"{len(scores)} trials recorded, max_repeats={R}")
+        R = spec["max_repeats"] * (2 if spec.get("again") else 1)
+        if spec.get("equil") is None:
+            if len(scores) != R:
+                viol.append(f"{len(scores)} trials recorded, {R} requested")
+        elif not (1 <= len(scores) <= R):
+            viol.append(f"{len(scores)} trials recorded, at most {R} requested (early stopping on)")
+        if list(spec["methods"]) == [FLAKY] and len(_state["calls"]) > R:
+            viol.append(f"{len(_state['calls'])} trials were run, {R} requested")
         if not (len(opt.costs_flops) == len(opt.costs_write) == len(opt.costs_size) == len(scores) == len(opt.method_choices) == len(opt.param_choices)):
             viol.append("trial records have different lengths")
         finite = [s for s in scores if s < float("inf")]
@@ -339,5 +378,9 @@ def run_case(spec, sub=None):
             cls.append("schedule_reordered" if pool.order != sorted(pool.order) else "schedule_in_order")
     if spec["fail"] and FLAKY in spec["methods"]:
         cls.append("with_failures")
+    if spec.get("equil") is not None:
+        cls.append("early_stopping")
+    if spec.get("again"):
+        cls.append("searched_twice")
     nontrivial = nfinite >= 2 and (post != "none" or spec["executor"] != "serial")
     return Outcome(viol, nontrivial, cls, {"trials": len(_state["calls"])})
